@@ -87,8 +87,14 @@ def judge(ctx, fmt, rp, q, parsed, where, depth=0):
                 ', '.join(getattr(u, 'text', 'loop')[:30] for u in unknown) or 'marker'))
             continue
         total = sum((p.nb for p in payload), Poly())
+        diff = op.marker - total
+        scalar_attrs = sorted(set(a for mono in diff.t for a, pw in mono if str(a).startswith('len(ncffile.') and str(a)[12:-1].isupper()))
         if op.marker == total:
             ctx.ok('R-FRAME', oid, where, 'marker %s == payload %s bytes (%d pieces)' % (op.marker, total, len(payload)))
+        elif scalar_attrs and all(any(a in scalar_attrs for a, pw in mono) for mono in diff.t if mono):
+            # the only disagreement is the element count of a file-level attribute the writer converts with array(.., ndmin=1): one
+            # element for the scalar the readers store there; its shape is a run-time fact
+            ctx.undec('R-FRAME', oid, where, 'marker %s, payload %s: equal when %s hold one value each (file attributes the readers set to scalars)' % (op.marker, total, ', '.join(scalar_attrs)))
         else:
             ctx.violation(Finding('R-FRAME', rp, q, api.stmt_of(op.node),
                                   'record marker is %s but the payload between the markers is %s bytes (%s): a Fortran reader '
